@@ -25,7 +25,11 @@ TRUSTED = [
     "validated by this run against introspection (inspect.signature, class __dict__, __mro__, dir(sparse)) and against recorded "
     "forwarding calls (the wrapped method is replaced by a recorder and the wrapper is called with sentinels)",
     "tie T2: the hand-written lookup model (`nep18`, `arrayUfunc`, `bindArg`) is compared with SparseArray.__array_function__ / "
-    "__array_ufunc__ / inspect.Signature.bind on every array-function-dispatched NumPy function x class x argument shape",
+    "__array_ufunc__ / inspect.Signature.bind on every array-function-dispatched NumPy function x class x argument shape; the body of "
+    "__array_ufunc__ is read statement by statement by the extractor (nout != 1 branch, trial call, outer branch, out= block -> generated "
+    "definitions; any other text is refused) and the model built on those definitions (`arrayUfuncOf`, `ufuncResult`, `outStore`, "
+    "`elemwiseFormat`) is compared with the implementation: routes, recorded component calls of divmod with their operand order, class "
+    "and attribute dictionary of `out` after the out= block for every format x result kind, format of element-wise results",
     "NumPy on the densified operands is the reference for leg C; dtypes are outside C17",
 ]
 
@@ -67,6 +71,8 @@ def dense_of(r):
 
     if isinstance(r, sparse.SparseArray):
         return r.todense()
+    if isinstance(r, tuple | list) and any(isinstance(m, sparse.SparseArray) for m in r):
+        return [dense_of(m) for m in r]
     if sp.issparse(r):
         return r.toarray()
     return r
@@ -353,23 +359,154 @@ def leg_a_lookup(ctx, table):
     x = as_format(d, "COO")
     dense_out = np.zeros_like(d)
     sparse_out = as_format(np.zeros_like(d), "COO")
+    sparse_out2 = as_format(np.zeros_like(d), "COO")
     probes = [
-        (np.add, "__call__", (x, x), {}, True), (np.add, "reduce", (x,), {"axis": 0}, True), (np.multiply, "outer", (x, x), {}, True),
-        (np.add, "accumulate", (x,), {}, True), (np.add, "reduceat", (x, [0]), {}, True), (np.add, "at", (x, [0], 1), {}, True),
-        (np.add, "__call__", (x, x), {"out": (dense_out,)}, False), (np.add, "__call__", (x, x), {"out": (sparse_out,)}, True),
-        (np.matmul, "__call__", (x, x.T), {}, True), (np.negative, "__call__", (x,), {}, True),
+        (np.add, "__call__", (x, x), {}), (np.add, "reduce", (x,), {"axis": 0}), (np.multiply, "outer", (x, x), {}),
+        (np.add, "accumulate", (x,), {}), (np.add, "reduceat", (x, [0]), {}), (np.add, "at", (x, [0], 1), {}),
+        (np.add, "__call__", (x, x), {"out": (dense_out,)}), (np.add, "__call__", (x, x), {"out": (sparse_out,)}),
+        (np.matmul, "__call__", (x, x.T), {}), (np.negative, "__call__", (x,), {}),
+        # ufuncs with several results
+        (np.divmod, "__call__", (x, x + 1), {}), (np.divmod, "__call__", (x, 2.0), {}), (np.divmod, "__call__", (2.0, x), {}),
+        (np.divmod, "__call__", (x, x), {"out": (sparse_out, sparse_out2)}), (np.divmod, "__call__", (x, x), {"out": (dense_out, dense_out)}),
+        (np.divmod, "outer", (x, x), {}), (np.divmod, "reduce", (x,), {}), (np.divmod, "at", (x, [0], 1), {}),
+        (np.modf, "__call__", (x,), {}), (np.frexp, "__call__", (x,), {}), (np.modf, "__call__", (x,), {"out": (sparse_out, sparse_out2)}),
+        (np.floor_divide, "__call__", (x, 2.0), {}), (np.remainder, "__call__", (x, 2.0), {}),
     ]
-    reqs = [["c17_ufunc_route", ok, uf.signature is not None, meth] for uf, meth, _, _, ok in probes]
+
+    def out_flags(kw):
+        o = kw.get("out")
+        return o is not None, o is None or all(isinstance(t, type(x)) for t in o)
+    reqs = [["c17_ufunc_route", uf.__name__, meth, *out_flags(kw)] for uf, meth, _, kw in probes]
+    reqs += [["c17_ufunc_result", uf.__name__, meth, *out_flags(kw), len(args)] for uf, meth, args, kw in probes]
     outs = ctx.driver.run(reqs)
-    for (uf, meth, args, kw, ok), o in zip(probes, outs):
-        r, e = call(lambda: x.__array_ufunc__(uf, meth, *args, **kw))
+    routes, results = outs[:len(probes)], outs[len(probes):]
+    from sparse.numba_backend import _sparse_array as sa
+
+    for (uf, meth, args, kw), o, res in zip(probes, routes, results):
+        # the component calls of a split are observed by recording what `np.<component>` is called with inside the dispatcher
+        seen = []
+        model, mres = o["ok"], res["ok"]
+        comps = [t["ufunc"] for t in mres["tuple"]] if "tuple" in mres else []
+
+        class _NP:
+            """`np` as the dispatcher sees it, with the component ufuncs replaced by recorders"""
+
+            def __getattr__(self, name):
+                real = getattr(np, name)
+                if name in comps:
+                    def rec(*a, _n=name, **k):
+                        seen.append((_n, [next((i for i, t in enumerate(args) if t is v), None) for v in a], sorted(k)))
+                        return ("component", _n)
+                    return rec
+                return real
+        if comps:
+            with mock.patch.object(sa, "np", _NP()):
+                r, e = call(lambda: x.__array_ufunc__(uf, meth, *args, **kw))
+        else:
+            r, e = call(lambda: x.__array_ufunc__(uf, meth, *args, **kw))
         got = "notimplemented" if r is NotImplemented else ("raised:" + type(e).__name__ if e is not None else "handled")
-        model = o["ok"]
-        case = {"ufunc": uf.__name__, "method": meth, "out_ok": ok}
+        case = {"ufunc": uf.__name__, "method": meth, "out": sorted(type(t).__name__ for t in kw.get("out", ())), "nargs": len(args)}
         ctx.case("A:ufunc-route", case, nontrivial=True)
         want = "notimplemented" if model == "notimplemented" else "handled"
         if got != want:
             ctx.fail("A", "model:arrayUfunc", case, f"model {model} implementation {got}")
+            continue
+        if "tuple" in mres:
+            want_calls = [(t["ufunc"], t["operands"], []) for t in mres["tuple"]]
+            if seen != want_calls or r != tuple(("component", c) for c in comps):
+                ctx.fail("A", "model:ufuncResult", case, f"model: the tuple of {want_calls}; implementation called {seen} and returned {r!r:.120}")
+        elif model.startswith("split"):
+            ctx.fail("A", "model:ufuncResult", case, f"route {model} but result {mres}")
+        elif got == "handled" and isinstance(r, tuple):
+            ctx.fail("A", "model:ufuncResult", case, f"model: one array by {model}; implementation returned a tuple of {len(r)}")
+
+
+def fmt_json(f):
+    """harness format name -> the model's `Fmt` as JSON"""
+    return f if f in ("coo", "dok") else {"gcxs": [int(a) for a in f[1]]}
+
+
+def build(d, f, fill=None):
+    """dense -> array of format `f` ('coo' | 'dok' | ('gcxs', compressed_axes))"""
+    import sparse
+
+    c = sparse.COO.from_numpy(d) if fill is None else sparse.COO.from_numpy(d, fill_value=fill)
+    if f == "coo":
+        return c
+    if f == "dok":
+        return sparse.DOK.from_coo(c)
+    return sparse.GCXS.from_coo(c, compressed_axes=tuple(f[1]))
+
+
+def fmt_name(f):
+    return f if isinstance(f, str) else "gcxs" + "".join(str(a) for a in f[1])
+
+
+def holds_of(obj):
+    """whose attribute dictionary an object carries, read from its __dict__ (not from its class)"""
+    v = vars(obj)
+    if isinstance(v.get("data"), dict):
+        return "dok"
+    if "indptr" in v and "indices" in v:
+        ca = v.get("_compressed_axes")
+        return {"gcxs": [int(a) for a in ca] if ca is not None else []}
+    if "coords" in v:
+        return "coo"
+    return "?" + ",".join(sorted(v))[:60]
+
+
+FORMATS_2D = ["coo", ("gcxs", (0,)), ("gcxs", (1,)), "dok"]
+FORMATS_3D = ["coo", ("gcxs", (0,)), ("gcxs", (1,)), ("gcxs", (2,)), ("gcxs", (0, 1)), ("gcxs", (1, 2)), "dok"]
+
+
+def leg_a_out(ctx, table):
+    """the out= block of __array_ufunc__ and the format rule of the element-wise machinery, model vs implementation, on the
+    representation: for every format of `out` x everything the computation can hand back (dense, every format) x shapes equal or
+    not, the element-wise call is replaced by one that returns the prepared result; afterwards the CLASS of the target and the
+    attribute dictionary it carries are compared with `outStore Gen.ufuncOutSteps`."""
+    import sparse
+    from sparse.numba_backend import _sparse_array as sa
+
+    ctx.notes["array_ufunc_read"] = {k: table.get(k) for k in ("multi_out_guard", "multi_out_split", "multi_out_ufuncs", "out_trial_ones", "out_steps",
+                                                                 "outer_final_reverse")}
+    d = np.array([[1.0, 0.0, 2.0, 0.0], [0.0, 3.0, 0.0, 1.0], [2.0, 0.0, 0.0, 4.0]])
+    e = np.array([[0.0, 1.0, 2.0, 0.0], [1.0, 3.0, 0.0, 0.0], [2.0, 0.0, 5.0, 4.0]])
+    dflt = [int(a) for a in sparse.COO.from_numpy(d).asformat("gcxs").compressed_axes]
+    cases, reqs = [], []
+    for fo in FORMATS_2D:
+        for fr in ["dense"] + FORMATS_2D:
+            for shape_ok in (True, False):
+                cases.append((fo, fr, shape_ok))
+                reqs.append(["c17_out_store", fmt_json(fo), "dense" if fr == "dense" else fmt_json(fr), shape_ok, dflt])
+    outs = ctx.driver.run(reqs)
+    errname = {"ValueError": "value", "TypeError": "type", "AttributeError": "internal"}
+    for (fo, fr, shape_ok), o in zip(cases, outs):
+        res_dense = d + e if shape_ok else (d + e)[:2]
+        result = res_dense if fr == "dense" else build(res_dense, fr)
+        target, a, b = build(np.zeros_like(d), fo), build(d, fo), build(e, fo)
+        with mock.patch.object(sa, "elemwise", lambda *args, **kw: result):
+            r, err = call(lambda: target.__array_ufunc__(np.add, "__call__", a, b, out=(target,)))
+        case = {"out": fmt_name(fo), "computed": fr if fr == "dense" else fmt_name(fr), "shape_ok": shape_ok}
+        ctx.case("A:out-store", case, nontrivial=True)
+        if err is not None:
+            got = {"err": errname.get(type(err).__name__, type(err).__name__)}
+        else:
+            got = {"ok": {"cls": type(target).__name__, "holds": holds_of(target)}, "returned_out": r is target}
+        want = {"err": o["err"]} if "err" in o else {"ok": {"cls": o["ok"]["cls"], "holds": o["ok"]["holds"]}, "returned_out": True}
+        if got != want:
+            ctx.fail("A", "model:outStore", case, f"model {want} implementation {got}")
+    # the format of an element-wise result (what the out= block is handed when nothing is replaced)
+    combos = [(fa, fb) for fa in FORMATS_2D for fb in FORMATS_2D] + [(("gcxs", (1,)), ("gcxs", (1,)), "dok"), ("dok", "dok", "dok"),
+                                                                      (("gcxs", (0,)), ("gcxs", (0,)), ("gcxs", (0,))), ("coo", "dok", ("gcxs", (1,)))]
+    outs = ctx.driver.run([["c17_elemwise_format", dflt, [fmt_json(f) for f in fs]] for fs in combos])
+    for fs, o in zip(combos, outs):
+        ops = [build(d * (k + 1), f) for k, f in enumerate(fs)]
+        r, err = call(lambda: np.add(*ops) if len(ops) == 2 else sparse.elemwise(lambda u, v, w: u + v + w, *ops))
+        case = {"formats": [fmt_name(f) for f in fs]}
+        ctx.case("A:elemwise-format", case, nontrivial=True)
+        got = holds_of(r) if err is None else f"raised {err!r}"
+        if got != o["ok"]:
+            ctx.fail("A", "model:elemwiseFormat", case, f"model {o['ok']} implementation {got}")
 
 
 def leg_a_outer(ctx):
@@ -680,6 +817,9 @@ def leg_c(ctx, rng, rounds):
                     lambda: np.nonzero(d))
         leg_c_outer(ctx, rng)
         leg_c_nonfinite_fill(ctx, rng)
+        if it % 4 == 0:
+            leg_c_divmod(ctx, rng)
+            leg_c_inplace(ctx, rng)
         if it % 10 == 0:
             core.log(f"C17 leg C {it}/{rounds}")
 
@@ -748,6 +888,220 @@ def leg_c_nonfinite_fill(ctx, rng):
                 if name == "negative":
                     spl["-x"] = lambda: -x
                 agree(ctx, f"C:fill:{name}", {"class": cn, "op": name, "fill": fk, "x": d.tolist()}, spl, lambda: npf(d))
+
+
+def leg_c_divmod(ctx, rng):
+    """ufuncs with several results.  `divmod(x, y)`, `x.__divmod__(y)`, `np.divmod(x, y)`, the pairs `(np.floor_divide, np.remainder)`
+    and `(x // y, x % y)` — and the reflected spellings — agree with each other and with NumPy for every format and for scalar /
+    ndarray / sparse second operands; `np.modf(x)`, `np.frexp(x)` and `np.divmod(x, y, out=…)` are rejected with TypeError and
+    leave the operand alone."""
+    import sparse
+
+    for dtype in (np.float64, np.int64):
+        d = make(rng, dtype=dtype)
+        e = make(rng, dtype=dtype)
+        nz = np.where(e == 0, 2, e).astype(dtype)
+        for f in FORMATS_2D:
+            x = build(d, f)
+            partners = [("scalar", dtype(2), dtype(2)), ("scalar-negative", dtype(-3), dtype(-3)), ("ndarray", nz, nz), ("sparse", build(nz, f), nz),
+                        ("sparse-with-zeros", build(e, f), e), ("ndarray-broadcast", nz[0], nz[0]), ("python-scalar", 2, 2)]
+            for kind, py, pd in partners:
+                base = {"class": type(x).__name__, "format": fmt_name(f), "op": "divmod", "partner": kind, "dtype": np.dtype(dtype).name,
+                        "x": d.tolist(), "y": np.asarray(pd).tolist()}
+                dense_partner = kind.startswith("ndarray")
+                spl = {"divmod(x, y)": lambda: divmod(x, py), "x.__divmod__(y)": lambda: x.__divmod__(py), "np.divmod(x, y)": lambda: np.divmod(x, py),
+                       "(np.floor_divide(x, y), np.remainder(x, y))": lambda: (np.floor_divide(x, py), np.remainder(x, py)),
+                       "(x // y, x % y)": lambda: (x // py, x % py),
+                       "(sparse.floor_divide(x, y), sparse.remainder(x, y))": lambda: (sparse.floor_divide(x, py), sparse.remainder(x, py))}
+                agree_tuple(ctx, "C:divmod", base, spl, lambda: np.divmod(d, pd), sparse_members=not dense_partner)
+                # reflected: y on the left.  Not for a BROADCAST ndarray: there func(ndarray, fill) = y // 0 is not one constant and the
+                # result could only be produced densely, which the library refuses by policy for every spelling (C07's mix rule)
+                if kind not in ("sparse", "sparse-with-zeros", "ndarray-broadcast"):
+                    splr = {"divmod(y, x)": lambda: divmod(py, x), "x.__rdivmod__(y)": lambda: x.__rdivmod__(py), "np.divmod(y, x)": lambda: np.divmod(py, x),
+                            "(np.floor_divide(y, x), np.remainder(y, x))": lambda: (np.floor_divide(py, x), np.remainder(py, x)),
+                            "(y // x, y % x)": lambda: (py // x, py % x)}
+                    agree_tuple(ctx, "C:divmod-reflected", base, splr, lambda: np.divmod(pd, d), sparse_members=not dense_partner)
+            # rejected cleanly
+            o1, o2 = build(np.zeros_like(d), f), build(np.zeros_like(d), f)
+            rejected = {"np.modf(x)": lambda: np.modf(x), "np.frexp(x)": lambda: np.frexp(x),
+                        "np.divmod(x, 2, out=(o1, o2))": lambda: np.divmod(x, dtype(2), out=(o1, o2)),
+                        "np.modf(x, out=(o1, o2))": lambda: np.modf(x, out=(o1, o2))}
+            if dtype is np.int64:
+                rejected = {k: v for k, v in rejected.items() if "divmod" in k}
+            for name, th in rejected.items():
+                case = {"class": type(x).__name__, "format": fmt_name(f), "call": name, "dtype": np.dtype(dtype).name, "x": d.tolist()}
+                ctx.case("C:multi-output-rejected", case, nontrivial=True)
+                v, err = call(th)
+                if err is None:
+                    msg = f"{name} returned {type(v).__name__} (a ufunc with several results that the library does not compute must raise TypeError)"
+                elif not isinstance(err, TypeError):
+                    msg = f"{name} raised {type(err).__name__}: {str(err)[:120]} (TypeError expected)"
+                elif not (same(x, d) and same(o1, np.zeros_like(d)) and same(o2, np.zeros_like(d)) and type(x) is type(build(d, f))):
+                    msg = f"{name} raised TypeError but changed an operand"
+                else:
+                    continue
+                ctx.fail("C", "multi-output-rejected", case, msg, finding=findings.classify(PID, "multi-output-rejected", case, msg))
+
+
+def agree_tuple(ctx, family, case, spellings, ref_thunk, sparse_members=True):
+    """`agree` for spellings that return a tuple of arrays: every member compared with NumPy's, members stay sparse"""
+    import sparse
+
+    agree(ctx, family, case, spellings, ref_thunk, must_be_sparse=False)
+    ref, ref_err = call(ref_thunk)
+    if ref_err is not None:
+        return
+    for name, th in spellings.items():
+        v, e = call(th)
+        if e is not None:
+            continue  # reported by `agree`
+        c = dict(case, spelling=name)
+        if not isinstance(v, tuple) or len(v) != len(ref):
+            msg = f"{name} returned {type(v).__name__}, NumPy returns a tuple of {len(ref)}"
+            ctx.fail("C", family, c, msg, finding=findings.classify(PID, family, c, msg))
+        elif sparse_members and not all(isinstance(m, sparse.SparseArray) for m in v):
+            msg = f"{name} returned members of type {[type(m).__name__ for m in v]}, not sparse arrays"
+            ctx.fail("C", family, c, msg, finding=findings.classify(PID, family, c, msg))
+
+
+INPLACE = [("iadd", operator.iadd, np.add), ("isub", operator.isub, np.subtract), ("imul", operator.imul, np.multiply)]
+INPLACE_MORE = [("itruediv", operator.itruediv, np.true_divide), ("ifloordiv", operator.ifloordiv, np.floor_divide), ("imod", operator.imod, np.remainder),
+                ("ipow", operator.ipow, np.power)]
+
+
+def working_array(t, want, f_orig, cls_orig):
+    """is `t` a working array of class `cls_orig` whose value is `want`?  -> None | what is wrong"""
+    if type(t) is not cls_orig:
+        return f"the target's class is {type(t).__name__}, it was {cls_orig.__name__}"
+    probes = [("todense", lambda: t.todense(), lambda: want),
+              ("holds", lambda: holds_of(t) if isinstance(holds_of(t), str) else "gcxs", lambda: f_orig if isinstance(f_orig, str) else "gcxs"),
+              ("follow-up t * 2", lambda: (t * 2).todense(), lambda: want * 2),
+              ("follow-up t + t", lambda: (t + t).todense(), lambda: want + want),
+              ("follow-up t[0]", lambda: t[0].todense() if t.ndim > 1 else t[0], lambda: want[0]),
+              ("nnz is readable", lambda: np.asarray(0 <= int(t.nnz) <= want.size), lambda: np.asarray(True)),
+              ("asformat round trip", lambda: t.asformat("coo").asformat("gcxs" if cls_orig.__name__ == "GCXS" else cls_orig.__name__.lower()).todense(), lambda: want),
+              ("copy", lambda: t.copy().todense() if hasattr(t, "copy") else t.todense(), lambda: want)]
+    for name, th, ref in probes:
+        v, e = call(th)
+        if e is not None:
+            return f"{name} raised {type(e).__name__}: {str(e)[:100]}"
+        r = ref()
+        if isinstance(r, str):
+            if v != r:
+                return f"{name}: the target carries the attributes of {v}, its class says {r}"
+        elif not same(v, r):
+            return f"{name} gives {np.asarray(dense_of(v)).tolist()!r:.100}, expected {np.asarray(r).tolist()!r:.100}"
+    return None
+
+
+def leg_c_inplace(ctx, rng):
+    """in-place operators and out= across EVERY ordered pair of formats (COO, GCXS with each compressed axes, DOK): `a op= b`,
+    `np.<ufunc>(a, b, out=a)`, `np.<ufunc>(a, b, out=(c,))` with c of every format.  Afterwards the target is the same object, of
+    its original class, a working array (todense, follow-up operations, asformat round trip, copy) equal to NumPy's result, the
+    other operands are unchanged — or the call raised ValueError/TypeError (then NumPy must not have computed a result that could
+    be stored) and the target is unchanged."""
+    shapes = [((3, 4), FORMATS_2D)]
+    if not ctx.quick or ctx.seed % 3 == 0:
+        shapes.append(((2, 3, 2), FORMATS_3D))
+    ops = INPLACE if ctx.quick else INPLACE + INPLACE_MORE
+    for shape, formats in shapes:
+        d, e = make(rng, shape), make(rng, shape)
+        ez = np.where(e == 0, 2.0, np.abs(e))  # for the division-like operators: no zero, no negative base problems
+        for fa in formats:
+            for fb in formats:
+                # ---- a op= b ---------------------------------------------------------------------------------------------------
+                for name, opf, uf in ops:
+                    e_use = ez if name in ("itruediv", "ifloordiv", "imod", "ipow") else e
+                    for partner in ("sparse", "scalar"):
+                        if partner == "scalar" and (fb != formats[0] or name in ("iadd", "isub")):
+                            continue  # the scalar partner does not depend on fb; x += 2 has a non-zero fill (C07's business)
+                        a, b = build(d, fa), (build(e_use, fb) if partner == "sparse" else 2.0)
+                        pd = e_use if partner == "sparse" else 2.0
+                        cls0 = type(a)
+                        case = {"op": name, "target": fmt_name(fa), "other": fmt_name(fb) if partner == "sparse" else "scalar", "shape": list(shape),
+                                "x": d.tolist(), "y": np.asarray(pd).tolist()}
+                        want, ref_err = call(lambda: opf(d.copy(), pd))
+                        r, err = call(lambda: opf(a, b))
+                        check_target(ctx, "C:inplace", case, a, r, err, want, ref_err, d, fa, cls0,
+                                     others=[(b, e_use, fb)] if partner == "sparse" else [])
+                # ---- np.add(a, b, out=a) and out=(c,) ----------------------------------------------------------------------------
+                for uf in (np.add, np.multiply):
+                    a, b = build(d, fa), build(e, fb)
+                    cls0 = type(a)
+                    case = {"op": f"np.{uf.__name__}(a, b, out=a)", "target": fmt_name(fa), "other": fmt_name(fb), "shape": list(shape),
+                            "x": d.tolist(), "y": e.tolist()}
+                    r, err = call(lambda: uf(a, b, out=a))
+                    check_target(ctx, "C:out", case, a, r, err, uf(d, e), None, d, fa, cls0, others=[(b, e, fb)])
+                    for fc in formats:
+                        a, b, c = build(d, fa), build(e, fb), build(np.ones(shape), fc)
+                        cls0 = type(c)
+                        case = {"op": f"np.{uf.__name__}(a, b, out=(c,))", "a": fmt_name(fa), "b": fmt_name(fb), "target": fmt_name(fc), "shape": list(shape),
+                                "x": d.tolist(), "y": e.tolist()}
+                        r, err = call(lambda: uf(a, b, out=(c,)))
+                        check_target(ctx, "C:out", case, c, r, err, uf(d, e), None, np.ones(shape), fc, cls0, others=[(a, d, fa), (b, e, fb)])
+        # ---- integer power in place: the trial call of the out= path must not depend on leftover memory ---------------------------------
+        di = np.abs(d).astype(np.int64)
+        ei = (np.abs(e) % 3).astype(np.int64)
+        for fa in formats:
+            for fb in formats:
+                for rep in range(2 if ctx.quick else 6):
+                    junk = -np.ones(1 + rep, dtype=np.int64)  # negative leftovers for a later np.empty((1,), int64) to find
+                    del junk
+                    a, b = build(di, fa), build(ei, fb)
+                    cls0 = type(a)
+                    case = {"op": "ipow", "dtype": "int64", "target": fmt_name(fa), "other": fmt_name(fb), "shape": list(shape), "x": di.tolist(), "y": ei.tolist()}
+                    want, ref_err = call(lambda: operator.ipow(di.copy(), ei))
+                    r, err = call(lambda: operator.ipow(a, b))
+                    check_target(ctx, "C:inplace", case, a, r, err, want, ref_err, di, fa, cls0, others=[(b, ei, fb)])
+        # ---- calls NumPy itself rejects: the target must be left alone -------------------------------------------------------------
+        di = d.astype(np.int64)
+        for fa in formats:
+            for fb in formats[:2] + formats[-1:]:
+                a, b = build(di, fa), build(e + 0.5, fb)
+                cls0 = type(a)
+                case = {"op": "int64 target += float64", "target": fmt_name(fa), "other": fmt_name(fb), "shape": list(shape), "x": di.tolist(), "y": (e + 0.5).tolist()}
+                want, ref_err = call(lambda: operator.iadd(di.copy(), e + 0.5))
+                r, err = call(lambda: operator.iadd(a, b))
+                check_target(ctx, "C:inplace-rejected", case, a, r, err, want, ref_err, di, fa, cls0, others=[(b, e + 0.5, fb)])
+                a, c = build(d, fa), build(np.ones(shape[:-1] + (shape[-1] + 1,)), fb)
+                cls0 = type(c)
+                case = {"op": "np.add(a, a, out=(c,)) with c of another shape", "a": fmt_name(fa), "target": fmt_name(fb), "shape": list(shape), "x": d.tolist()}
+                want, ref_err = call(lambda: np.add(d, d, out=np.ones(shape[:-1] + (shape[-1] + 1,))))
+                r, err = call(lambda: np.add(a, a, out=(c,)))
+                check_target(ctx, "C:inplace-rejected", case, c, r, err, want, ref_err, np.ones(shape[:-1] + (shape[-1] + 1,)), fb, cls0, others=[(a, d, fa)])
+
+
+def check_target(ctx, family, case, target, returned, err, want, ref_err, before, f_orig, cls_orig, others=()):
+    ctx.case(family, case, nontrivial=True)
+
+    def fail(msg):
+        ctx.fail("C", family.split(":", 1)[1], case, msg, finding=findings.classify(PID, family, case, msg))
+    if ref_err is not None:
+        # NumPy rejects the call: a clean rejection, target untouched
+        if err is None:
+            return fail(f"NumPy raises {type(ref_err).__name__} but the call returned")
+        if not isinstance(err, ValueError | TypeError):
+            return fail(f"NumPy raises {type(ref_err).__name__}; the call raised {type(err).__name__}: {str(err)[:120]}")
+        bad = working_array(target, before, f_orig, cls_orig)
+        if bad:
+            return fail(f"the call raised {type(err).__name__} and left the target changed/broken: {bad}")
+    elif err is not None:
+        if not isinstance(err, ValueError | TypeError):
+            return fail(f"raised {type(err).__name__}: {str(err)[:140]} (NumPy computes; only ValueError/TypeError is a clean refusal)")
+        bad = working_array(target, before, f_orig, cls_orig)
+        if bad:
+            return fail(f"the call raised {type(err).__name__} and left the target changed/broken: {bad}")
+        return fail(f"raised {type(err).__name__}: {str(err)[:140]} while NumPy computes the result and it is storable in the target's format")
+    else:
+        if returned is not target:
+            return fail(f"the call returned {type(returned).__name__} object {'equal to' if same(returned, want) else 'different from'} NumPy's result instead of the target itself")
+        bad = working_array(target, want, f_orig, cls_orig)
+        if bad:
+            return fail(f"after the call: {bad}")
+    for o, od, of in others:
+        bad = working_array(o, od, of, type(build(od, of)))
+        if bad:
+            return fail(f"another operand changed: {bad}")
 
 
 # values for NumPy-style probes that can be replayed on the real code
@@ -940,6 +1294,7 @@ def run(ctx):
     t1_validate(ctx, table)
     leg_a_lookup(ctx, table)
     leg_a_outer(ctx)
+    leg_a_out(ctx, table)
     violations = leg_a_probes(ctx, table)
     replay_witnesses(ctx, reports)
     leg_c(ctx, rng, 2 if ctx.quick else 120)
